@@ -14,13 +14,14 @@ VARIABLES l, st, bid
 vars == <<l, st, bid>>
 Fresh == [ghost |-> <<>>, N |-> 1, G |-> <<>>]
 
-Obj(pos, sp, dt, meta) == [pos |-> pos, sp |-> sp, dt |-> dt, meta |-> meta]
+Obj(pos, sp, dt, meta, lat) == [pos |-> pos, sp |-> sp, dt |-> dt, meta |-> meta, lat |-> lat]
 SameStore(g, objs) == /\ Len(g) = Len(objs)
                       /\ \A i \in 1..Len(g) : objs[i].dead \/ (g[i].pos = objs[i].pos /\ g[i].sp = objs[i].sp
-                                                               /\ g[i].dt = objs[i].dt /\ g[i].meta = objs[i].meta)
+                                                               /\ g[i].dt = objs[i].dt /\ g[i].meta = objs[i].meta /\ g[i].lat = objs[i].lat)
 FirstBad(g, objs) == IF Len(g) # Len(objs) THEN "live-object-count"
                      ELSE IF \E i \in 1..Len(g) : ~objs[i].dead /\ g[i].sp # objs[i].sp THEN "object-species-changed"
                      ELSE IF \E i \in 1..Len(g) : ~objs[i].dead /\ (g[i].dt # objs[i].dt \/ g[i].meta # objs[i].meta) THEN "object-timestep-or-metadata-changed"
+                     ELSE IF \E i \in 1..Len(g) : ~objs[i].dead /\ g[i].lat # objs[i].lat THEN "object-lattice-changed"
                      ELSE IF \E i \in 1..Len(g) : ~objs[i].dead /\ g[i].pos # objs[i].pos THEN "object-data-changed"
                      ELSE "ok"
 
@@ -30,9 +31,9 @@ NormSq3(G, v) == NormSq(G, <<v[1], v[2], v[3]>>)
 Apply(s, e) ==
   LET g == s.ghost  N == s.N IN
   CASE e.act = "Construct" ->
-         <<"ok", Append(g, Obj(WrapC(e.c, N), e.sp, e.dt, e.meta))>>
+         <<"ok", Append(g, Obj(WrapC(e.c, N), e.sp, e.dt, e.meta, e.lat))>>
     [] e.act = "ConstructDisp" ->
-         <<"ok", Append(g, Obj(WrapC([t \in DOMAIN e.d |-> FPlus(e.base, Cum(e.d)[t])], N), e.sp, e.dt, e.meta))>>
+         <<"ok", Append(g, Obj(WrapC([t \in DOMAIN e.d |-> FPlus(e.base, Cum(e.d)[t])], N), e.sp, e.dt, e.meta, e.lat))>>
     [] e.act = "GetPos" ->
          <<IF ~e.incell THEN "positions-not-in-half-open-cell"
            ELSE IF e.ret # g[e.i].pos THEN "positions-value" ELSE "ok", g>>
@@ -110,8 +111,8 @@ TStep == /\ l <= Len(Log)
                 v2 == IF v1 # "ok" THEN v1 ELSE FirstBad(r[2], e.objs)
                 v3 == IF v2 = "ok" /\ e.act = "ApplyDrift" THEN DriftClauses(r[2], e, s0.N) ELSE v2
                 (* after a bad object projection resynchronise with what was observed so that later steps are still judged *)
-                g2 == IF v2 \in {"object-data-changed", "object-species-changed", "object-timestep-or-metadata-changed"}
-                      THEN [i \in 1..Len(r[2]) |-> IF e.objs[i].dead THEN r[2][i] ELSE Obj(e.objs[i].pos, e.objs[i].sp, e.objs[i].dt, e.objs[i].meta)]
+                g2 == IF v2 \in {"object-data-changed", "object-species-changed", "object-timestep-or-metadata-changed", "object-lattice-changed"}
+                      THEN [i \in 1..Len(r[2]) |-> IF e.objs[i].dead THEN r[2][i] ELSE Obj(e.objs[i].pos, e.objs[i].sp, e.objs[i].dt, e.objs[i].meta, e.objs[i].lat)]
                       ELSE r[2]
             IN /\ PrintT(<<"V", l, v3, e.act>>)
                /\ st' = [s0 EXCEPT !.ghost = g2]
